@@ -457,7 +457,31 @@ def rbody_http_body_reaches_the_decoders_whole(ctx):
     c19.r2_chunk_independence(ctx)
 
 
-LIB_RULES = [rbody_http_body_reaches_the_decoders_whole, rraw_params_text_is_not_reparsed, rjudge_only_the_decoders_say_invalid_params, rplain_request_decoder, rrej_rejections_are_driven, r1_only_invalid_params, r2_poison_on_error, r3_exhaustion_table, r4_absent_params, rown_into_owned, rnext_reads_T, rws_separator_sees_no_whitespace, rone_is_one_array_parse]
+def rext_request_wrappers_only_attach_extensions(ctx):
+    """what the decoders hand on is what serde decoded: the server's request wrappers (deserialize_with_ext::{call,notif}::
+    {from_slice,from_str}) decode and attach the connection's extensions - nothing else. A wrapper that also edits the
+    request (drops `"params": []` because a sequence reader would not mind) changes what `parse` / `one` see: `[]` becomes
+    absent, which those read as `null`."""
+    F, R = ctx.F, ctx.R
+    n = 0
+    ALLOWED = r"^serde_json::(de::)?from_(slice|str)$|::extensions_mut$|Clone>?::clone$|Try>?::branch$|FromResidual(<.*>)?>?::from_residual$|^std::mem::drop$|^core::mem::drop$"
+    for b in F.real_bodies():
+        if b.crate != "jsonrpsee_server" or is_test_body(b) or not re.match(r"^jsonrpsee_server::utils::deserialize_with_ext::(call|notif)::from_(slice|str)$", b.path):
+            continue
+        n += 1
+        R.fn(b)
+        extra = [c for x in F.nested(b) for c in x.calls if not re.search(ALLOWED, c.name() or "") and not re.search(ALLOWED, c.callee or "")]
+        writes = []
+        for x in F.nested(b):
+            for blk in x.blocks:
+                for st in blk["st"]:
+                    if st["s"] == "assign" and any(isinstance(e, dict) and e.get("n") in ("params", "method", "id", "jsonrpc") for e in st["pl"].get("p", [])):
+                        writes.append("%s:%d" % (x.file, st["sp"][0]))
+        R.check(not extra and not writes, "C16.EXT", "%s:only-decodes-and-attaches" % fkey(b), "%s decodes and attaches the extensions" % short(b.path), "%s does more than decode and attach the extensions (calls %s; member writes at %s): the request a handler gets is no longer the request that was sent" % (short(b.path), sorted({short(c.name()) for c in extra})[:5], writes[:3]), "%s:%d" % (b.file, b.lo))
+    R.floor("C16.EXT", n, 4, "request wrappers of the server")
+
+
+LIB_RULES = [rext_request_wrappers_only_attach_extensions, rbody_http_body_reaches_the_decoders_whole, rraw_params_text_is_not_reparsed, rjudge_only_the_decoders_say_invalid_params, rplain_request_decoder, rrej_rejections_are_driven, r1_only_invalid_params, r2_poison_on_error, r3_exhaustion_table, r4_absent_params, rown_into_owned, rnext_reads_T, rws_separator_sees_no_whitespace, rone_is_one_array_parse]
 CONFIGS_QUICK = ["libs-all", "corpus"]
 CONFIGS_THOROUGH = ["libs-all", "facade-full", "corpus"]
 
